@@ -266,7 +266,7 @@ def malformed_probe(job):
         else:
             note = "located" if re.search(r"m\.l:\d+: ", errs) else "general"
     shutil.rmtree(wd, ignore_errors=True)
-    return {'kind': 'malformed', 'mutation': kind, 'opts': opts, 'rc': rc, 'problems': problems, 'note': note, 'data_hex': data.hex() if len(data) < 6000 else None,
+    return {'kind': 'malformed', 'mutation': kind, 'opts': opts, 'rc': rc, 'problems': problems, 'note': note, 'data_hex': data.hex() if (problems or len(data) < 6000) else None,
             'data_len': len(data), 'stderr': errs[:600], 'seed_idx': idx}
 
 
@@ -280,8 +280,19 @@ def _dispatch(job):
         return {'kind': 'harness', 'problems': ["harness-error " + repr(ex) + traceback.format_exc()[-300:]], 'rc': None}
 
 
-def base_spec(rng, idx):
-    prog = rulesets.gen_program(rng.fork("p"), trailing=rng.chance(30), max_scs=2, csize=256)
+# minimized failures found earlier: they run first in every tier
+CORPUS = [
+    ("option-value-starts-with-nul", b'%option noyywrap emit="\x00c99"\n%%\na {}\n', []),          # fixed e5d59f4
+    ("option-value-only-nul", b'%option prefix="\x00"\n%%\na {}\n', ["-7"]),
+    ("option-value-empty", b'%option prefix=""\n%option outfile=""\n%%\na {}\n', []),
+    ("mutually-recursive-definitions", b'A {B}x\nB {A}y\n%%\n{A} {}\n', []),                 # fixed 6a0dffb
+    ("self-recursive-definition", b'A {A}\n%%\n{A} {}\n', ["-CF"]),
+    ("recursive-definition-in-class-context", b'A [a]{A}\n%%\nx{A}+/{A} {}\n', []),
+]
+
+
+def base_spec(rng, idx, trailing=None):
+    prog = rulesets.gen_program(rng.fork("p"), trailing=rng.chance(30) if trailing is None else trailing, max_scs=2, csize=256)
     be = rng.pick(['nr', 'nr', 'r', 'c99'])
     text = scanner.make_spec(prog, rng.fork("print"), options=(["case-insensitive"] if prog.get('caseins') else []), backend=be)
     return text, be
@@ -306,8 +317,9 @@ def main(tier):
         idx = 0
         for i in range(nspec):
             r = rng.fork("w%d" % i)
-            text, be = base_spec(r, i)
             extra = r.pick([[], [], ["-Cf"], ["-CF"], ["-Ce"], ["-L"], ["-i"]]) + ["-8"]
+            # -Cf/-CF refuse variable trailing context (documented): the write probes need a specification flex accepts
+            text, be = base_spec(r, i, trailing=False if extra[0] in ("-Cf", "-CF") else None)
             for probe in WRITE_PROBES:
                 if probe[0].startswith("tables") or probe[0] == "all-ok":
                     if be == 'c99':
@@ -315,6 +327,8 @@ def main(tier):
                 jobs.append(('W', probe[0], text, extra, idx))
                 idx += 1
         nm = 700 if tier == "quick" else 20000
+        for j, (cname, cdata, copts) in enumerate(CORPUS):
+            jobs.append(('M', 1000000 + j, "corpus:" + cname, cdata, copts))
         for i in range(nm):
             r = rng.fork("m%d" % i)
             if i % 50 == 0 or i == 0:
